@@ -86,6 +86,15 @@ class MachO(BinFormat):
         return self.__file.name
 
     def __init__(self, f):
+        # malformed content is reported through the format's own error type:
+        try:
+            self._read(f)
+        except (MachOError, StructureError):
+            raise
+        except Exception as e:
+            raise MachOError("%s: %s" % (type(e).__name__, e))
+
+    def _read(self, f):
         self.__file = f
         self.__entry = None
         self._is_fat = False
